@@ -1141,6 +1141,28 @@ func (g *c11gen) cidOps(n int) {
 	b58enc([]byte{255, 255})
 }
 
+// small helpers of utils.go: Uint16ToBytes, Uint64ToBytes, maxUint8
+func (g *c11gen) helpers(n int) {
+	r := g.r
+	for _, v := range c11seqs {
+		fmt.Fprintf(g.w, "be %s w=8 v=%d out=%s\n", g.id("be-"), v, c11hex(Uint64ToBytes(v)))
+		fmt.Fprintf(g.w, "be %s w=2 v=%d out=%s\n", g.id("be-"), uint16(v), c11hex(Uint16ToBytes(uint16(v))))
+	}
+	for i := 0; i < n; i++ {
+		v := r.Uint64()
+		fmt.Fprintf(g.w, "be %s w=8 v=%d out=%s\n", g.id("be-"), v, c11hex(Uint64ToBytes(v)))
+		fmt.Fprintf(g.w, "be %s w=2 v=%d out=%s\n", g.id("be-"), uint16(v), c11hex(Uint16ToBytes(uint16(v))))
+		a, b := uint8(r.Intn(256)), uint8(r.Intn(256))
+		if i%8 == 0 {
+			b = a
+		}
+		if i%8 == 1 {
+			b = a + 1
+		}
+		fmt.Fprintf(g.w, "max8 %s a=%d b=%d out=%d\n", g.id("max8-"), a, b, maxUint8(a, b))
+	}
+}
+
 const b58alphabetVerif = "123456789ABCDEFGHJKLMNPQRSTUVWXYZabcdefghijkmnopqrstuvwxyz"
 
 // ---------------------------------------------------------------- entry point
@@ -1173,6 +1195,7 @@ func TestVerifAlphUtil(t *testing.T) {
 	g.attest(300 * scale)
 	g.hexOps(150 * scale)
 	g.cidOps(120 * scale)
+	g.helpers(40 * scale)
 	if err := g.w.Flush(); err != nil {
 		t.Fatal(err)
 	}
